@@ -116,6 +116,13 @@ class C18(BtProp):
             return self.oneshot_dec(sh, spec, obs)
         if kind == "eitheror":
             return self.either_or(sh, spec, obs)
+        if kind == "eitheror2":
+            # two idioms with the same name and the default (private) namespace side by side: each one on its own
+            # must behave as a lone either_or
+            out = []
+            for sub in spec[3]:
+                out += self.either_or(sh, sub, obs)
+            return out
         return []
 
     @staticmethod
